@@ -114,6 +114,13 @@ F.append(dict(id='F23', property='C14', status='open', clause_kind='order_parkin
 F.append(dict(id='F22', property='C13', status='open', clause_kind='reinit-multiobjective',
               witness=dict(case='corpus/C13/F22.json'),
               text="initialize() a second time (or a second SchedulingSolver) on a problem with two objectives raises ValueError: build_equivalent_weighted_objective registers 'EquivalentIndicator' / 'MinimizeEquivalentObjective' in the problem itself [F22]"))
+F.append(dict(id='F43', property='C15', status='open', clause_kind='optimum-differs-debug-optimize',
+              witness=dict(case='corpus/C15/F43.json',
+                           observed="optimizer='optimize', debug=True: ObjectiveTasksStartLatest returns start 1 where every other configuration returns 5"),
+              text="debug=True together with optimizer='optimize' may return a valid but non-optimal schedule: in debug mode the assertions reach z3.Optimize "
+                   "through assert_and_track, and z3 4.12 then does not optimise reliably (start 1 instead of 5 on the corpus witness; removing a redundant "
+                   "assertion restores the optimum) [F43]"))
+
 fixed('F01', 'C01', '417f19d', 'ZeroDurationTask + TaskStartAt(-3): returned start = end = -3 (no start >= 0)')
 fixed('F02', 'C06', '417f19d', 'optional ZeroDurationTask had no scheduled variable (reported scheduled=False with start 2)')
 fixed('F03', 'C02', 'f96816e', 'dynamic assignment admitted busy_end < busy_start (assignment (T, 22382, 0), cost -111910)')
